@@ -6,12 +6,14 @@ mod c03;
 mod c01;
 mod c02;
 mod c04;
+mod c05;
 mod c06;
 mod c08;
 mod c09;
 mod c10;
 mod semcheck;
 mod c11;
+mod c14;
 
 type ReplayFn = fn(&Ctx, &J) -> Result<(), String>;
 type RunFn = fn(&Ctx);
@@ -22,11 +24,13 @@ fn table(prop: &str) -> Option<(RunFn, ReplayFn)> {
     "C01" => (c01::run, c01::replay),
     "C02" => (c02::run, c02::replay),
     "C04" => (c04::run, c04::replay),
+    "C05" => (c05::run, c05::replay),
     "C06" => (c06::run, c06::replay),
     "C08" => (c08::run, c08::replay),
     "C09" => (c09::run, c09::replay),
     "C10" => (c10::run, c10::replay),
     "C11" => (c11::run, c11::replay),
+    "C14" => (c14::run, c14::replay),
     _ => return None,
   })
 }
